@@ -129,6 +129,89 @@ def tr_handler(node, funcs):
     return 'HDef %s %s' % (q(name), coq_list(calls))
 
 
+def tr_callspec(node, funcs):
+    """CSingle <method> [<arg>...] when the handler makes exactly ONE call `<ipmi>.<method>(...)`, outside
+    any loop, has no other use of <ipmi>, and every argument is an integer constant or
+    int(<args>[k]) / int(<args>[k], base) (directly or through a local assigned once); else CMulti."""
+    if isinstance(node, ast.Lambda) and len(node.args.args) == 2:
+        p0, p1, body = node.args.args[0].arg, node.args.args[1].arg, [node.body]
+    elif isinstance(node, ast.Name) and node.id in funcs and len(funcs[node.id].args.args) == 2:
+        f = funcs[node.id]
+        p0, p1, body = f.args.args[0].arg, f.args.args[1].arg, f.body
+    else:
+        return 'CMulti "handler outside the fragment"'
+    parents = {}
+    for root in body:
+        for n in ast.walk(root):
+            for c in ast.iter_child_nodes(n):
+                parents[c] = n
+    calls = []
+    for root in body:
+        for n in ast.walk(root):
+            if isinstance(n, ast.Name) and n.id == p0:
+                p = parents.get(n)
+                pp = parents.get(p)
+                if isinstance(p, ast.Attribute) and p.value is n and isinstance(pp, ast.Call) and pp.func is p:
+                    calls.append(pp)
+                else:
+                    return 'CMulti "the connection is used other than by one direct method call"'
+    if len(calls) != 1:
+        return 'CMulti "%d method calls"' % len(calls)
+    call = calls[0]
+    a = parents.get(call)
+    while a is not None:
+        if isinstance(a, (ast.For, ast.While, ast.ListComp, ast.GeneratorExp, ast.SetComp, ast.DictComp, ast.Lambda,
+                          ast.FunctionDef)):
+            return 'CMulti "the call is inside a loop or nested function"'
+        a = parents.get(a)
+    if call.keywords or any(isinstance(x, ast.Starred) for x in call.args):
+        return 'CMulti "keyword or starred arguments"'
+
+    def assigned(name):
+        hits = []
+        for root in body:
+            for n in ast.walk(root):
+                if isinstance(n, ast.Name) and n.id == name and isinstance(n.ctx, ast.Store):
+                    hits.append(parents.get(n))
+        if len(hits) == 1 and isinstance(hits[0], ast.Assign) and len(hits[0].targets) == 1 \
+                and hits[0].targets[0] is not None and isinstance(hits[0].targets[0], ast.Name):
+            return hits[0].value
+        return None
+
+    def tr_arg(e, depth=0):
+        if isinstance(e, ast.Constant) and isinstance(e.value, int) and not isinstance(e.value, bool):
+            return 'AConst (%d)%%Z' % e.value
+        if isinstance(e, ast.Name) and e.id not in (p0, p1) and depth == 0:
+            v = assigned(e.id)
+            return tr_arg(v, 1) if v is not None else None
+        if isinstance(e, ast.Call) and isinstance(e.func, ast.Name) and e.func.id == 'int' and not e.keywords \
+                and 1 <= len(e.args) <= 2 and isinstance(e.args[0], ast.Subscript) \
+                and isinstance(e.args[0].value, ast.Name) and e.args[0].value.id == p1 \
+                and isinstance(e.args[0].slice, ast.Constant) and isinstance(e.args[0].slice.value, int) \
+                and not isinstance(e.args[0].slice.value, bool) and e.args[0].slice.value >= 0:
+            base = 10
+            if len(e.args) == 2:
+                b = e.args[1]
+                if not (isinstance(b, ast.Constant) and isinstance(b.value, int) and not isinstance(b.value, bool)
+                        and b.value in (0, 10)):
+                    return None
+                base = b.value
+            return 'AInt %d%%nat %d' % (e.args[0].slice.value, base)
+        return None
+    # the argument vector must not be re-assigned
+    for root in body:
+        for n in ast.walk(root):
+            if isinstance(n, ast.Name) and n.id == p1 and isinstance(n.ctx, ast.Store):
+                return 'CMulti "the argument list is re-assigned"'
+    out = []
+    for x in call.args:
+        t = tr_arg(x)
+        if t is None:
+            return 'CMulti "an argument is neither a constant nor int(args[k])"'
+        out.append(t)
+    return 'CSingle %s %s' % (q(call.func.attr), coq_list(out))
+
+
 def tr_commands(tree, funcs):
     node = None
     for st in tree.body:
@@ -605,6 +688,7 @@ def generate(repo):
         exits = tr_exits(main)
         shape = tr_shape(main)
     power, cc = tr_power(names, repo)
+    specs = ['(%s, %s)' % (q(n), tr_callspec(h, funcs)) for n, h in names]
     import pyipmi.interfaces as I
     ifaces = [q(c.NAME) for c in I.INTERFACES]
     out = ['(* GENERATED by gen/gen_cli.py from %s - do not edit *)' % repo,
@@ -613,6 +697,8 @@ def generate(repo):
            'Open Scope string_scope.', 'Open Scope N_scope.', '',
            '(* COMMANDS of pyipmi/ipmitool.py, in order *)',
            'Definition commands : list command := [\n  %s].' % ';\n  '.join(cmds), '',
+           '(* per command: the ONE operation its handler calls and where the arguments come from, if it has that shape *)',
+           'Definition call_specs : list (string * callspec) := [\n  %s].' % ';\n  '.join(specs), '',
            '(* public callables of pyipmi.Ipmi: name, min / max positional arguments, keyword names, **kwargs *)',
            'Definition api_methods : list api_method := [\n  %s].' % ';\n  '.join(api), '',
            '(* getopt.getopt(sys.argv[1:], <short>, <long>) in main *)',
